@@ -478,18 +478,16 @@ impl Session<'_> {
         };
         use ServerState::*;
         match self.server_state.get() {
-            Some(DoesNotExist) => match self.id {
-                CurrentSessionId::NewlyGenerated(id) | CurrentSessionId::Existing(id) => {
-                    if create_if_empty {
-                        self.store
-                            .create(&id, SessionRecordRef::empty(fresh_ttl))
-                            .await?;
-                    }
+            Some(DoesNotExist) => {
+                // There is no record under the old id (if any), so there is nothing to rename:
+                // the (empty) record, if required, is created under the current id.
+                if create_if_empty {
+                    let id = self.id.new_id();
+                    self.store
+                        .create(&id, SessionRecordRef::empty(fresh_ttl))
+                        .await?;
                 }
-                CurrentSessionId::ToBeRenamed { .. } => {
-                    // Nothing to do.
-                }
-            },
+            }
             None => {
                 match self.id {
                     CurrentSessionId::Existing(_) => {
@@ -652,6 +650,20 @@ impl Session<'_> {
             });
             new_cell_with(new_state)
         };
+        // The store is now in sync with the in-memory state: it knows this session
+        // under its current id, if it knows it at all. Syncing again (e.g. an explicit
+        // `sync` followed by `finalize`) must not rename or create the record a second time.
+        match self.id {
+            CurrentSessionId::ToBeRenamed { new, .. } => {
+                self.id = CurrentSessionId::Existing(new);
+            }
+            CurrentSessionId::NewlyGenerated(id)
+                if matches!(self.server_state.get(), Some(Unchanged { .. })) =>
+            {
+                self.id = CurrentSessionId::Existing(id);
+            }
+            _ => {}
+        }
         Ok(())
     }
 
